@@ -300,13 +300,8 @@ func runC02(p *core.Prog, r *core.Report) {
 		// the error of that Flush is returned
 		okErr := false
 		for _, c := range core.FindInstrs(fn, isFlush) {
-			if v, ok := c.(ssa.Value); ok {
-				for _, ref := range *v.Referrers() {
-					if bo, ok := ref.(*ssa.BinOp); ok {
-						_ = bo
-						okErr = true
-					}
-				}
+			if core.ErrorTested(c) {
+				okErr = true
 			}
 		}
 		r.Check(okErr, "C02.R3", "Merge/flush-error", "the error of the delete-prefix flush is tested", "Flush result unused", p.Pos(fn.Pos()))
